@@ -1338,9 +1338,9 @@ class Bits:
             while found:
                 if count is not None and c >= count:
                     return
-                c += 1
                 lsb0_pos = len(self) - found.pop() - len(bs)
                 if not bytealigned or lsb0_pos % 8 == 0:
+                    c += 1
                     yield lsb0_pos
             if pos == msb0_start:
                 return
